@@ -614,6 +614,35 @@ Definition switch_plain_globalb (module : list string) (helpers : list (string *
   strl_eqb module modelled_switch_module && named_strl_eqb helpers modelled_switch_helpers
   && strl_eqb binding modelled_switch_binding && strl_eqb uses modelled_switch_uses.
 
+(* the loops of add(): candidates are collected from all members by exact type name, and the hint is looked up among the
+   CANDIDATES (translators/tr_supersig.py reads the loops of the real add() in source order and the collection iterated by the
+   loop that compares the hint) *)
+Definition modelled_add_loops : list string :=
+  ["for member in all_members"; "for t in targets"; "for t in targets"; "for t in targets"].
+Definition modelled_hint_loops : list string := ["targets"].
+Definition hint_loop_okb (loops hint_loops : list string) : bool :=
+  strl_eqb loops modelled_add_loops && strl_eqb hint_loops modelled_hint_loops.
+
+(* build-time validation is validate() as the user would call it.  The model's factories consult ONE validator `validate_ok`;
+   the real validate(self, recursive=<default>) has a parameter, and the two build-time call sites may pass it.  validate_at_site
+   is the validator a call site consults; it is the plain validate() exactly when the site passes nothing or the default itself. *)
+Definition validate_at_site {O : Type} (v : bool -> O -> bool) (default : bool) (arg : option bool) : O -> bool :=
+  v (match arg with Some b => b | None => default end).
+Definition site_agrees (default : bool) (arg : option bool) : bool :=
+  match arg with None => true | Some b => Bool.eqb b default end.
+Definition bool_literal (s : string) : option bool :=
+  if String.eqb s "True" then Some true else if String.eqb s "False" then Some false else None.
+(* a site as translated: (where, source text of the recursive argument, "" when none is passed) *)
+Definition site_arg (s : string) : option (option bool) :=
+  if String.eqb s "" then Some None else match bool_literal s with Some b => Some (Some b) | None => None end.
+Definition modelled_validate_sites : list string := ["add: self.validate"; "component_factory: comp.validate"].
+Definition build_time_rec_agreesb (default : string) (sites : list (string * string)) : bool :=
+  match bool_literal default with
+  | None => false
+  | Some d => strl_eqb (map fst sites) modelled_validate_sites
+              && forallb (fun s => match site_arg (snd s) with Some a => site_agrees d a | None => false end) sites
+  end.
+
 (* a history of switch operations issued from several threads: the thread plays no role in the model (one cell).  ts_seen is
    what the threads alive after the operation (the main thread, every pool worker, a thread started just now) observe. *)
 Record tstep := { ts_thread : nat; ts_op : option sw_op; ts_seen : list (nat * bool) }.   (* None: a factory/add call *)
